@@ -965,7 +965,7 @@ def gen_encode(rng, tier, shard, nshards, boost):
     # every shorthand x {plain, one item}, both flags: the documented bitmaps
     k = 0
     for q in SHORTHANDS:
-        for tail in ["", "(9)", "(*5)", "/b7", "(b3)/5"]:
+        for tail in ["", "(9)", "(*5)", "/b7", "(b3)/5", "(*9)", "(*13,*11)", "(*7)/9"]:
             k += 1
             if k % nshards == shard:
                 for r in (False, True):
@@ -989,16 +989,74 @@ def gen_encode_many(rng, tier, shard, nshards, boost):
         yield {"labels": ls, "reduce": rng.random() < 0.5}
 
 
+def spec_join(root, q, ext, bass):
+    """the documented rendering root[:quality][(e1,...,en)][/bass] of join's arguments (hand-transcribed): the extensions in
+    the order given, the bass omitted when it is the root ('1' or empty)"""
+    exts = list(ext) if ext else []
+    s = root
+    if q or exts:
+        s += ":" + q
+    if exts:
+        s += "(" + ",".join(exts) + ")"
+    if bass and bass != "1":
+        s += "/" + bass
+    return s
+
+
+def check_join(inp):
+    """join(root, quality, extensions, bass) for a LIST of extensions: nothing but InvalidChordException escapes; the
+    result is the documented rendering of the parts when that is a label of the syntax, InvalidChordException otherwise"""
+    root, q, ext, bass = inp["root"], inp["quality"], inp["extensions"], inp["bass"]
+    o = _outcome(lambda: chord.join(root, q, ext, bass))
+    if o[0] == "raised":
+        return "join(%r, %r, %r, %r) raised %s" % (root, q, ext, bass, o[1])
+    want = spec_join(root, q, ext, bass)
+    if grammar(want) is not None:
+        if o != ("ok", want):
+            return "join(%r, %r, %r, %r) = %r but the parts spell the label %r" % (root, q, ext, bass, o, want)
+    elif o[0] != "invalid":
+        return "join(%r, %r, %r, %r) = %r although the parts do not spell a label of the syntax" % (root, q, ext, bass, o)
+    return None
+
+
+def gen_join(rng, tier, shard, nshards, boost):
+    quals = SHORTHANDS + ["", "", "b9", "#11", "Maj", "min "]
+    for root, q, ext, bass in [("C", "maj", ["3", "5"], "5"), ("C", "", ["5", "3"], ""), ("A", "7", ["13", "9", "3", "11"], "b7"),
+                               ("G", "min", ["*b3", "*5", "9", "b13"], "1"), ("N", "", [], ""), ("X", "maj", [], "1"),
+                               ("C", "", None, ""), ("C", "maj", None, "1"), ("D", "13", ["*13", "*11", "*9", "b7", "5"], "3")][shard::nshards]:
+        yield {"root": root, "quality": q, "extensions": ext, "bass": bass}
+    n = (1500 if tier == "thorough" else 200) * boost
+    for _ in range(n):
+        k = rng.randrange(3)
+        if k == 0:          # the parts of a real split, in sorted, reversed or shuffled order
+            s = rng.choice([sample_label, random_label])(rng)
+            try:
+                root, q, degs, bass = chord.split(s, reduce_extended_chords=rng.random() < 0.5)
+            except chord.InvalidChordException:
+                continue
+            ext = sorted(degs)
+            rng.shuffle(ext)
+        else:
+            root = rng.choice(ROOTS + ["N", "X", "", "H"]) if k == 1 else rng.choice(ROOTS)
+            q = rng.choice(quals)
+            ext = [rng.choice(ITEMS + ["", "14", "3 ", "*"]) if k == 1 and rng.random() < 0.3 else rng.choice(ITEMS)
+                   for _ in range(rng.choice([0, 1, 2, 3, 4, 5]))]
+            bass = rng.choice(["", "1", "b1"] + DEGREES + (["0", "/5"] if k == 1 else []))
+        yield {"root": root, "quality": q, "extensions": ext, "bass": bass}
+
+
 CHECKERS = {"chord.validate_chord_label": check_validate, "chord.encode": check_encode,
-            "chord.encode_many": check_encode_many}
+            "chord.encode_many": check_encode_many, "chord.join": check_join}
 ORACLES = {"chord.validate_chord_label": gen_validate, "chord.encode": gen_encode,
-           "chord.encode_many": gen_encode_many}
+           "chord.encode_many": gen_encode_many, "chord.join": gen_join}
 
 
 def classify(suite, d):
     i = d.get("info") or {}
     if "labels" in i:
         return "chord.encode_many", {"labels": i["labels"], "reduce": i.get("reduce", False)}
+    if "root" in i and "extensions" in i:
+        return "chord.join", {"root": i["root"], "quality": i["quality"], "extensions": i["extensions"], "bass": i["bass"]}
     if "label" not in i:
         return None
     if d["op"] in ("chord.accept", "chord.validate", "chord.recognize", "chord.re_match"):
